@@ -103,6 +103,15 @@ def r1_inverse_pair(ctx):
         # ---- forward
         evs = G.explore(ctx, N2P, fwd, env={"coordinfo": ci, "a": a}, inline=inline)
         locs = [ev.ret() for ev in evs if not ev.raised]
+        cells = ("cid", "o0", "o1", "o2", "al", "be", "ga")
+        und = sorted({ast.unparse(n) for ev in evs for v, n, d in ev.sh.asked
+                      if G.is_rat(v) and G.fold_bool(v) is None and any(G.mentions_sym(v, c) for c in cells)})
+        if und:
+            ctx.fail(f"_get_loc_a_basic ({label}): the map is selected by the type code (row 0, column 1 of the 5x3 coordinate-system record) alone", fwd,
+                     {"tests on other cells of the record": und[:4]})
+            continue
+        if len(locs) > 1 and all(G.same(x, locs[0]) for x in locs[1:]):
+            locs = locs[:1]
         loc = locs[0] if len(locs) == 1 else None
         if not (isinstance(loc, tuple) and len(loc) == 3 and not G.any_unknown(loc)):
             ctx.error(f"_get_loc_a_basic ({label}): basic location", fwd, _show(locs))
@@ -364,7 +373,14 @@ def r3_rbgeom(ctx):
     table = [("a generic reference point", (Fraction(7), Fraction(-2), Fraction(3))),
              ("[0, 3.5, -1.25]", (Fraction(0), Fraction(7, 2), Fraction(-5, 4))), ("[1, 0, 0]", (Fraction(1), Fraction(0), Fraction(0))),
              ("[0, 0, 2]", (Fraction(0), Fraction(0), Fraction(2))), ("[1, -1, 0]", (Fraction(1), Fraction(-1), Fraction(0))),
-             ("[-2, 0, 3]", (Fraction(-2), Fraction(0), Fraction(3))), ("[0, 0, 0]", (Fraction(0), Fraction(0), Fraction(0)))]
+             ("[-2, 0, 3]", (Fraction(-2), Fraction(0), Fraction(3)))]
+    seen_w = {w for _, w in table}
+    for x in (0, 1, -1):
+        for y in (0, 1, -1):
+            for z in (0, 1, -1):
+                w = (Fraction(x), Fraction(y), Fraction(z))
+                if w not in seen_w:
+                    table.append((f"[{x}, {y}, {z}]", w))
     want = _rb_expected(*[a - b for a, b in zip(g, r)])
     bad, first, generic = [], True, None
     for label, w in table:
@@ -489,19 +505,27 @@ def _loop_rows(ev, lp):
     if any(o is None for o in offs):
         return None
     base = es[0] + min(offs)
+    outside = []
+    var = lp.get("var")
+    if G.is_rat(var) and _mask_of(lp) is not None:
+        # the loop runs over the first rows of the selected grids: rows var .. var + 5 are the grid's own
+        rel = [G.int_of(e - var) for e in es]
+        if all(o is not None for o in rel):
+            base = var
+            outside = sorted({o for o in rel if not 0 <= o < 6})
     final, names = {}, []
     for k in range(6):
         e = base + k
         names.append(f"{buf}[{e!r}]")
         final[k] = ev.sh.memory.get((buf, G.vkey(e)), F.sym(names[-1]))
-    return buf, base, final, names
+    return buf, base, final, names, outside
 
 
 def _loop_matrix(ev, lp):
     r = _loop_rows(ev, lp)
     if r is None:
         return None
-    buf, base, final, names = r
+    buf, base, final, names, outside = r
     M = []
     for k in range(6):
         cs = G.linear_in(final[k], names)
@@ -553,7 +577,7 @@ def r2_local_frames(ctx):
     rbcall = [c for c in gen.calls if c[0] == "rbgeom"]
     ok, detail = len(rect) == 1 and len(rbcall) == 1, None
     if ok:
-        buf, b, final, names = _loop_rows(gen, rect[0])
+        buf, b, final, names, _ = _loop_rows(gen, rect[0])
         rbv = gen.ev(rbcall[0][3])
         for k in range(6):
             if not G.same(final[k], A(b) * F.fn("idx", rbv, b + k)):
@@ -589,9 +613,19 @@ def r2_local_frames(ctx):
             ctx.error("rbgeom_uset: selection of the grids of a local-frame fix-up", lp["node"], _show(lp["iter"]))
             continue
         calls = _atan2_calls(gen, lp)
+        rows = _loop_rows(gen, lp)
+        if rows is not None and rows[4]:
+            ctx.fail("rbgeom_uset: the fix-up of a grid rewrites rows of that grid only (rows i .. i + 5 of its first row i)", lp["node"],
+                     {"row offsets outside 0..5": rows[4]})
+            continue
         mat = _loop_matrix(gen, lp)
         fam = (_family(calls[0][1][0]) or _family(calls[0][1][1])) if calls else (_family_in(mat[1]) if mat is not None else None)
-        if code not in frames or fam is None or mat is None:
+        if code not in frames:
+            ctx.fail("rbgeom_uset: a position-dependent frame is applied to cylindrical (type 2) and spherical (type 3) grids only", lp["node"],
+                     {"selection": _show(mask), "consequence": f"there is no curvilinear output system of type {code}; the grids of one of the types 2, 3 "
+                                                               "are left in (or taken out of) their rectangular frame"})
+            continue
+        if fam is None or mat is None:
             ctx.error("rbgeom_uset: local-frame fix-up", lp["node"], {"type code": code, "first atan2": _show(calls[0][1]) if calls else None,
                                                                       "rows": mat is not None})
             continue
@@ -628,6 +662,8 @@ def r2_local_frames(ctx):
         ok = cross and G.same(rr, frame)
         ctx.check(ok, f"rbgeom_uset ({label}): the rotational rows are rotated by the same frame as the translational rows", lp["node"],
                   None if ok else _show(rr, 900))
+    if set(found) != {2, 3} and any(o.status == "fail" and o.rule == ctx.rule for o in ctx.obls):
+        return
     if set(found) != {2, 3}:
         ctx.error("rbgeom_uset: one local-frame fix-up per curvilinear type (2 cylindrical, 3 spherical)", fn, {"types bound": sorted(found)})
         return
